@@ -5,7 +5,7 @@
    accepted inside containers, nesting limit 32); [cfg_pinned] is the tree as
    pinned, kept for the two refutations. *)
 From Lal Require Import Common.LBytes Common.Res Rtmp.RtmpAmf0 Rtmp.RtmpMetadata
-  Rtmp.RtmpAmf0Proofs Rtmp.RtmpAmf0SpecProofs Rtmp.RtmpMetadataProofs.
+  Rtmp.RtmpAmf0Proofs Rtmp.RtmpAmf0SpecProofs Rtmp.RtmpMetadataProofs Rtmp.RtmpAmf0FloatProofs.
 From Coq Require Import Lia.
 Open Scope N_scope.
 
@@ -159,6 +159,33 @@ Theorem c18_metadata_readback : forall enc ver w h a v,
   = (Ok (map (fun kv => (fst kv, aval_of_wval (snd kv))) (metadata_fields enc ver w h a v)), 1).
 Proof. exact parse_build_metadata. Qed.
 Print Assumptions c18_metadata_readback.
+
+(* the number written for an int field (width, height, codec ids, ...) denotes
+   that very integer: float64(int) is exact below 2^53 (IEEE-754 binary64
+   decoding [f64_int_value] of the written bit pattern) *)
+Theorem c18_int_fields_exact : forall z,
+  (- 9007199254740992 < z < 9007199254740992)%Z -> f64_int_value (f64_of_Z z) = Some z.
+Proof. exact f64_of_Z_exact. Qed.
+Print Assumptions c18_int_fields_exact.
+
+(* command bodies as MessagePacker builds them (name, transaction id, object,
+   e.g. connect / _result / onStatus) are read back field by field: the
+   round-trip theorems hold in front of arbitrary following bytes, so they chain *)
+Theorem c18_roundtrip_command : forall name tid l rest,
+  lenN name < 4294967296 -> tid < 18446744073709551616 ->
+  Forall (fun kv => lenN (fst kv) < 65536 /\ wval_dom (snd kv)) l ->
+  let body := write_string name ++ write_number tid ++ write_object l ++ rest in
+  exists b1 b2,
+    read_string body = Ok (name, lenN (write_string name), b1) /\
+    read_number b1 = Ok (tid, 9, b2) /\
+    fst (read_object cfg_fixed b2) = Ok (map (fun kv => (fst kv, aval_of_wval (snd kv))) l, lenN (write_object l), rest).
+Proof.
+  intros name tid l rest Hn Ht Hl body. subst body.
+  exists (write_number tid ++ write_object l ++ rest), (write_object l ++ rest).
+  split; [apply read_string_write, Hn|]. split; [apply read_number_write, Ht|].
+  now rewrite read_object_write_fixed.
+Qed.
+Print Assumptions c18_roundtrip_command.
 
 (* --- non-vacuity ----------------------------------------------------------------- *)
 Example c18_nonvacuous :
